@@ -106,13 +106,6 @@ Print Assumptions C19_evaluate_after_test_data_repaired.
 
 (* ---- non-vacuity: a concrete classification object, one partly-outside test call: hypotheses are met, the call succeeds,
    one sample is removed, two are classified, and (code as found) evaluate() worked before and raises afterwards *)
-Definition ex_learn : ds := fresh [([0; 0], 0%Z); ([1; Qc2], 0%Z); ([Qc2 + Qc2; Qc2 + Qc2], 1%Z); ([Qc2 + 1; Qc2 + Qc2], 1%Z)].
-Definition ex_st : cstate :=
-  match initialize as_found ex_learn None with
-  | Some ir => mkC (i_min ir) (i_max ir) (i_fac ir) (i_scaled ir) [0%Z; 1%Z] [0%Z; 1%Z] [0%Z; 1%Z] true
-  | None => mkC [] [] [] (fresh []) [] [] [] false
-  end.
-Definition ex_new : ds := fresh [([1; 1], 0%Z); ([Qc2 + Qc2 + Qc2 + Qc2 + 1; 0], 1%Z); ([Qc2 + 1; Qc2 + 1], 0%Z)].
 Example C19_nonvacuous :
   wf ex_new /\ scaled ex_new = false /\ length (c_min ex_st) = ddim ex_new /\ length (c_fac ex_st) = ddim ex_new /\
   evaluate ex_st <> None /\
